@@ -96,6 +96,10 @@ def run(prop, tier, seed, replay=None):
             jobs.append({"kind": "random", "level": level, "store": store,
                          "threshold": rng.choice([0, 1, 2, None, None]),
                          "seed": rng.randrange(1 << 30), "length": 40 if quick else 70})
+        # the witness history of every listed (open) finding, re-run as recorded
+        for d, e in sorted(devs.items()):
+            if e.get("witness"):
+                jobs.append(dict(e["witness"], witness_of=d))
     with multiprocessing.get_context("fork").Pool(15) as pool:
         outs = pool.map(_work, jobs, chunksize=1)
     traces = []
@@ -109,6 +113,18 @@ def run(prop, tier, seed, replay=None):
     results, stat = tlc.validate_traces("IndexTrace", "IndexTrace.cfg", {"traces": traces},
                                         constants={"EnabledDevs": tlc.tla_set(devs)})
     by = {t["id"]: t for t in traces}
+    first = {}
+    for r in results:
+        got = {v["dev"] for v in r["v"] if v["k"] in ("known", "viol")}
+        j = jobinfo.get(r["id"]) or {}
+        for d in sorted(got):
+            if d not in first and j.get("kind") == "random":
+                first[d] = {k: v for k, v in j.items() if k != "witness_of"}
+        if j.get("witness_of") and j["witness_of"] not in got:
+            rep.note("the witness history of listed finding %s no longer shows it" % j["witness_of"])
+    if not replay:
+        os.makedirs(os.path.join(common.OUT_DIR, "witness"), exist_ok=True)
+        json.dump(first, open(os.path.join(common.OUT_DIR, "witness", "Index.json"), "w"), indent=1, sort_keys=True)
     nq = 0
     distinct = set()
     for t in traces:
